@@ -629,9 +629,16 @@ KINDS = ['png', 'svg', 'eps', 'pdf', 'txt', 'ans', 'pbm', 'pam', 'ppm', 'tex', '
 TYPE_OPTS = ['finder_dark', 'finder_light', 'data_dark', 'data_light', 'timing_dark', 'separator', 'quiet_zone', 'format_dark', 'alignment_dark']
 
 
+AMBIGUOUS = [[0, 0, 128, 1], [0, 0, 128, 1.0], [200, 30, 30, 128], [200, 30, 30, 128.0], [0, 0, 128, 0], [0, 0, 128, 0.0]]
+
+
 @st.composite
 def symbol_op(draw):
-    k = draw(st.integers(0, 9))
+    k = draw(st.integers(0, 11))
+    if k >= 10:
+        # colour values which compare equal but mean different things (1 == 1.0, 128 == 128.0; the float
+        # 128.0 is malformed): a memoisation keyed by equality makes the result depend on the history
+        return {'op': 'save', 'kind': draw(st.sampled_from(['png', 'svg'])), 'opts': {'dark': draw(st.sampled_from(AMBIGUOUS[:4]))}}
     if k < 5:
         kind = draw(st.sampled_from(KINDS))
         opts = {}
@@ -642,6 +649,11 @@ def symbol_op(draw):
         if kind in ('png', 'svg', 'ppm', 'pam', 'xpm', 'eps', 'pdf') and draw(st.booleans()):
             opts['dark'] = draw(st.sampled_from(['darkblue', '#123', [9, 8, 7]]))
             opts['light'] = draw(st.sampled_from(['yellow', '#fed', [250, 251, 252]]))
+        elif kind in ('png', 'svg') and draw(st.booleans()):
+            # values which compare equal but mean different things (1 == 1.0, 128 == 128.0): any
+            # memoisation keyed by equality makes the result depend on the history
+            opts['dark'] = draw(st.sampled_from([[0, 0, 128, 1], [0, 0, 128, 1.0], [200, 30, 30, 128], [200, 30, 30, 128.0],
+                                                 [0, 0, 128, 0], [0, 0, 128, 0.0], [0, 0, 128, 255], [1, 1, 1], [1.0, 1.0, 1.0]]))
         if kind in ('png', 'svg', 'ppm') and draw(st.booleans()):
             for name in draw(st.permutations(TYPE_OPTS))[:draw(st.integers(1, 3))]:
                 opts[name] = draw(st.sampled_from(['green', '#0000ff', 'orange', '#abcdef']))
